@@ -14,6 +14,7 @@ func init() {
 			"(C19-all) in the bulk loader every clause of the kind switch that inserts at all inserts its object on every path: the conflict checks see only what was inserted. " +
 			"(C19-range) a positive answer of HasValidPriority implies both bounds of [MinANPPriority, MaxANPPriority] (formula over its exits); (C19-labels) the comparison that rejects pods of one owner with different labels skips no key of either label map. " +
 			"(C19-labels-src) the label set a selector is matched against is the Labels field of a pod or namespace object (or a parameter naming one), never a set computed from further per-pod state: the same-owner consistency check and the cache key cover Labels only, so anything else makes the result depend on which replica represents the workload. " +
+			"(C19-labels-always) the same-owner check accepts a pod without comparing labels only when the pod has no owner or is the first pod of its owner; every other acceptance follows the comparison (equality of a digest or of the cache-key variant is not one). " +
 			"NOT decided: that a comparison sort evaluates less() on at least one equal pair and at least once per element for n >= 2 (a fact about an execution of sort.Slice; recorded as an assumption)."
 		rules.ConflictDetectors(p, r, "C19-a")
 		rules.CheckBeforeWrite(p, r, "C19-b")
@@ -25,5 +26,6 @@ func init() {
 		rules.PriorityRangeBothBounds(p, r, "C19-range")
 		rules.OwnerLabelsComparedCompletely(p, r, "C19-labels")
 		rules.SelectorsMatchObjectLabels(p, r, "C19-labels-src")
+		rules.OwnerLabelsAlwaysCompared(p, r, "C19-labels-always")
 	})
 }
